@@ -9,6 +9,7 @@ CONSTANTS MaxLinks = 2
  DiscardVi = "first"
  Streaming = FALSE
  PinSer = FALSE
+ PinBos = FALSE
  PLen = 2
  ReadLens = {100}
  MaxCalls = 2
